@@ -170,3 +170,6 @@ def run(ctx):
             ctx.ob('SEEK-RESULT', '%s#%d' % (lv, nst), ok, sk.loc(a), '%s = retval with retval >= %s%s' % (lv, b.lo, '' if ok else ' — PSF_SEEK_ERROR (-1) from a failed codec seek becomes the position'), repr(b))
     ctx.require(nst >= 3, 'only %d stores of the codec seek result found in sf_seek' % nst)
 
+    from engine.run import borrow
+    borrow(ctx, 'C05', ['STAGING'], 'a staging loop that delivers more (or other) items for one large request than for the same request in pieces makes the samples depend on the partition')
+
